@@ -49,10 +49,29 @@ def _solve_one(ob, timeout_ms, seed):
     portfolio = PORTFOLIO
     ground = not _has_quantifier(ob.hyps + [ob.goal])
     if not ground and not _has_quantifier([ob.goal]):
-        # a quantifier-free goal (typically a peeled last element): try it from the quantifier-free hypotheses alone, with the
-        # native string solver - dropping hypotheses is sound for proving
+        # a quantifier-free goal (typically a peeled last element).  First the usual E-matching attempt on everything, then the
+        # goal from the quantifier-free hypotheses alone (dropping hypotheses is sound for proving): EUF, then native strings.
+        from .abstract import abstract_query as _aq
+
         gh = [h for h in ob.hyps if not _has_quantifier([h])]
-        for depth, share in ((0, 0.15), (2, 0.15)):
+        qa = _aq(gh, ob.goal)
+        if qa is not None:
+            s = z3.Solver()
+            s.set("timeout", max(1000, int(timeout_ms * 0.08)))
+            s.add(*qa)
+            if s.check() == z3.unsat:
+                return {"verdict": "proved", "time": time.time() - t_start, "backend": "z3-euf (quantifier-free hypotheses, strings abstracted)"}
+        q0 = _aq(ob.hyps, ob.goal)
+        if q0 is not None:
+            for opts_, share_ in (({"smt.mbqi": False}, 0.12), ({"smt.mbqi": False, "smt.qi.eager_threshold": 100.0}, 0.15)):
+                s = z3.Solver()
+                s.set("timeout", max(1000, int(timeout_ms * share_)))
+                for k_, v_ in opts_.items():
+                    s.set(k_, v_)
+                s.add(*q0)
+                if s.check() == z3.unsat:
+                    return {"verdict": "proved", "time": time.time() - t_start, "backend": "z3-euf(strings abstracted) " + ",".join(f"{k_}={v_}" for k_, v_ in opts_.items())}
+        for depth, share in ((0, 0.1), (2, 0.1)):
             rel = _relevant(gh, ob.goal, depth)
             s = z3.Solver()
             s.set("timeout", max(1000, int(timeout_ms * share)))
@@ -61,6 +80,7 @@ def _solve_one(ob, timeout_ms, seed):
             s.add(z3.Not(ob.goal))
             if s.check() == z3.unsat:
                 return {"verdict": "proved", "time": time.time() - t_start, "backend": f"z3 (quantifier-free hypotheses, cone depth {depth})"}
+        portfolio = PORTFOLIO[2:]
     if ground:
         # cone of influence: hypotheses that (transitively) share a constant with the goal; fewer hypotheses can only
         # make proving harder, never unsound - a `sat` answer of the reduced query is ignored
